@@ -370,6 +370,10 @@ structure PctEff (α : Type) where
   plow : α
   phigh : α
 
+/-- MaxResourcePercentage (static mode) / MinResourcePercentage (deviation mode): what
+    newThresholds fills in for a resource without a low entry. -/
+def dfltPct (deviation : Bool) : Int := if deviation then 0 else 100
+
 /-- a resource is tracked when it is a key of any of the four maps, or is memory. -/
 def tracked {α} (isMem : Bool) (p : PctIn α) : Bool :=
   isMem || p.low.isSome || p.high.isSome || p.plow.isSome || p.phigh.isSome
